@@ -13,6 +13,9 @@
                                    schedule: comma list of `M` (main loop visits the next layer) and `<i><f>` (closure
                                    number i, in hand-over order, takes its next step; f = - or a fault letter))
                                   -> as index
+    state <config>                -> tok <index>   (libindex.New on a scratch store, only for its State(): any number
+                                   of scanners of the four kinds (k = p|d|r|f), names shared across kinds, a (kind,
+                                   name) listed by several ecosystems with different versions - the first wins)
     net up|down                   -> ok   (scanners flagged N return *net.AddrError while the network is down)
     index <l.l.l> <pos:f,...> <live|dead>
                                   -> e=.. s=.. st=.. er=.. b=.. sc=.. sr=.. n=.. t=..
@@ -95,7 +98,7 @@ def State.off (s : State) (x : Scanner) : Bool :=
   s.specs.any fun sp => sp.s == x && !(configOne sp.impl).2
 
 def parseKind : String → Option Tag
-  | "p" => some .pkg | "d" => some .dist | "r" => some .repo | _ => none
+  | "p" => some .pkg | "d" => some .dist | "r" => some .repo | "f" => some .file | _ => none
 
 def parseSpec (p : String) : Option Spec :=
   match p.splitOn "/" with
@@ -111,7 +114,7 @@ def mkCfg (specs : List Spec) : Cfg :=
   let ecos := (List.range n).map fun i =>
     let mine := (specs.filter fun p => p.eco == i).map (·.s)
     ({ ps := mine.filter (·.kind == .pkg), ds := mine.filter (·.kind == .dist),
-       rs := mine.filter (·.kind == .repo), fs := [] } : Eco)
+       rs := mine.filter (·.kind == .repo), fs := mine.filter (·.kind == .file) } : Eco)
   ecos ++ [whiteoutEco]
 
 def parseConfig (s : String) : Option (List Spec) :=
@@ -274,6 +277,17 @@ def stepLine (s : State) (l : String) : State × String :=
     | some nf, some specs => newLine s nf specs
     | _, _ => (s, "bad-op")
   | ["net", x] => ({ s with netDown := x == "down" }, "ok")
+  | ["state", spec] =>
+    match parseConfig spec with
+    | none => (s, "bad-op")
+    | some specs =>
+      -- EcosystemsToScanners + MergeVS: by kind, ecosystem by ecosystem, first scanner of a name per kind
+      let cfg := mkCfg specs
+      let vs := dedupeByName (cfg.flatMap (·.ps) ++ cfg.flatMap (·.ds) ++ cfg.flatMap (·.rs) ++ cfg.flatMap (·.fs))
+      let pre := StateToken.preimage (vs.map tscanner)
+      let toks := s.tokens ++ [pre]
+      let k := (toks.findIdx? (· == pre)).getD 0
+      ({ s with tokens := toks }, s!"tok {k}")
   | ["run", spec] => (s, runLine spec)
   | ["pindex", ls, lim, sc] =>
     match parseLayers ls, lim.toNat?, parseSched sc with
